@@ -5,6 +5,7 @@ import (
 	"go/ast"
 	"go/constant"
 	"go/token"
+	"go/types"
 	"regexp"
 	"strconv"
 	"strings"
@@ -281,6 +282,39 @@ func rulesC18(w *World, r *Report) {
 		r.Check(ok, "C18.R4", "ViewRawCommand.execute", w.pos(ve.Pos()), "read -> filter(From, until) -> optional stable sort -> print", "view-raw does not print the time-filtered raw slots (sorted only under -sort)")
 	}
 	ruleFilterVisitsAll(w, r, "C18.R4")
+	// what a printing function is given a writer for goes to that writer: no function of cmd that takes an io.Writer
+	// prints to the process's standard output
+	{
+		bad := ""
+		n := 0
+		for _, f := range cmdFuncs(w) {
+			takes := false
+			for _, p := range f.Params {
+				if types.TypeString(p.Type(), nil) == "io.Writer" {
+					takes = true
+				}
+			}
+			if !takes {
+				continue
+			}
+			n++
+			for _, c := range callsIn(f) {
+				if isCallToPkgFunc(c, "fmt", "Print") || isCallToPkgFunc(c, "fmt", "Printf") || isCallToPkgFunc(c, "fmt", "Println") {
+					if bad == "" {
+						bad = funcName(f) + " prints with fmt." + c.Common().StaticCallee().Name() + " at " + w.instrPos(c)
+					}
+				}
+			}
+			eachInstr(f, func(in ssa.Instruction) {
+				if u, ok := in.(*ssa.UnOp); ok && u.Op == token.MUL {
+					if g, isG := u.X.(*ssa.Global); isG && g.Pkg != nil && g.Pkg.Pkg.Path() == "os" && g.Name() == "Stdout" && bad == "" {
+						bad = funcName(f) + " uses os.Stdout at " + w.instrPos(u)
+					}
+				}
+			})
+		}
+		r.Check(bad == "" && n > 0, "C18.R3", "cmd:writer-functions-use-their-writer", "cmd", fmt.Sprintf("%d functions take an io.Writer, none prints to standard output beside it", n), bad+": with -text-out naming a file that part of the output (the header) goes to the terminal and is missing from the file")
+	}
 	if sp := need(w, r, "C18.R4", w.Cmd, "sortPointsListByTime"); sp != nil {
 		_, n := singleCall(sp, func(c *ssa.Call) bool { return isCallToPkgFunc(c, "sort", "Stable") })
 		bad := 0
@@ -1144,6 +1178,63 @@ func rulesC20(w *World, r *Report) {
 	ruleProductWidth(w, r, "C20.R5")
 	r.Rule("C20.R6", "the requested layout reaches the command: each flag.Value (aggregation method, xFilesFactor, retention list, file mode, timestamps) stores what it parsed into the option it was registered for before reporting success", 5)
 	ruleFlagSetStores(w, r, "C20.R6")
+	// what generate writes is what randomPointsList produced: the lists go to the writer untouched, whatever the
+	// requested method is (the sums of the coarser archives are part of what was generated)
+	{
+		rp := fn(w.Cmd, "randomPointsList")
+		upd := fn(w.Cmd, "updateFileDataWithPointsList")
+		bad := ""
+		n := 0
+		if gen != nil && rp != nil && upd != nil {
+			var made []ssa.Value
+			for _, c := range callsTo(gen, rp) {
+				made = append(made, c)
+			}
+			derives := func(v ssa.Value) bool {
+				for i := 0; i < 8; i++ {
+					for _, m := range made {
+						if v == m {
+							return true
+						}
+					}
+					switch t := v.(type) {
+					case *ssa.UnOp:
+						v = t.X
+					case *ssa.IndexAddr:
+						v = t.X
+					case *ssa.FieldAddr:
+						v = t.X
+					case *ssa.Index:
+						v = t.X
+					case *ssa.Phi:
+						for _, e := range t.Edges {
+							for _, m := range made {
+								if e == m {
+									return true
+								}
+							}
+						}
+						return false
+					default:
+						return false
+					}
+				}
+				return false
+			}
+			for _, c := range callsTo(gen, upd) {
+				n++
+				if !derives(c.Common().Args[1]) {
+					bad = "the lists written at " + w.instrPos(c) + " are not the ones randomPointsList returned"
+				}
+			}
+			eachInstr(gen, func(in ssa.Instruction) {
+				if st, ok := in.(*ssa.Store); ok && derives(st.Addr) && bad == "" {
+					bad = "a generated point is changed at " + w.instrPos(st) + " before it is written"
+				}
+			})
+		}
+		r.Check(bad == "" && n > 0, "C20.R5", "GenerateCommand.execute:writes-what-it-generated", w.pos(gen.Pos()), "the generated lists reach the writer unchanged", "GenerateCommand.execute: "+bad+": a coarser slot covered by finer slots no longer holds their sum")
+	}
 	ruleParseFloatWidth(w, r, "C20.R6")
 	ruleC05R7(w, r, "C05.R7", 2, cmdReachableFrom(w, "GenerateCommand"))
 }
